@@ -59,7 +59,15 @@ def gen_case(rng):
         if rng.random() < 0.1:
             e = round(e, 2)
         eq.append(e)
-    return dict(start_day=d0, equity=eq, periods=rng.choice([252, 252, 252, 12, 52]), scale=rng.choice([2.0, 0.5, 1000.0, 3.7]), mode=mode)
+    bench = None
+    if rng.random() < 0.5:
+        b = rng.choice([1e6, 5e5, 250.0])
+        bench = [b]
+        for i in range(1, n):
+            b = b * math.exp(rng.gauss(0.0002, 0.009))
+            bench.append(b)
+    return dict(start_day=d0, equity=eq, periods=rng.choice([252, 252, 252, 12, 52]), scale=rng.choice([2.0, 0.5, 1000.0, 3.7]), mode=mode,
+                benchmark=bench)
 
 
 def series(x):
@@ -87,7 +95,10 @@ def execute(case):
     res, df = real_stats(case, case['equity'])
     # the two reporters
     alloc = pd.DataFrame({'EQ:AAA': [1.0] * len(df)}, index=df.index)
-    js = JSONStatistics(df.copy(), alloc, periods=case['periods'], output_filename=os.path.join(tempfile.gettempdir(), 'qsv_stats_%d.json' % os.getpid()))
+    bdf = None
+    if case.get('benchmark'):
+        res['bench'], bdf = real_stats(case, case['benchmark'])
+    js = JSONStatistics(df.copy(), alloc, benchmark_curve=None if bdf is None else bdf.copy(), periods=case['periods'], output_filename=os.path.join(tempfile.gettempdir(), 'qsv_stats_%d.json' % os.getpid()))
     st = js.statistics['strategy']
     res['json'] = dict(returns=[float(v) for k, v in st['returns']], cum_returns=[float(v) for k, v in st['cum_returns']],
                        drawdowns=[float(v) for k, v in st['drawdowns']], max_drawdown=float(st['max_drawdown']),
@@ -96,6 +107,12 @@ def execute(case):
                        sharpe=float(st['sharpe']), sortino=float(st['sortino']),
                        monthly=[[[int(k[0]), int(k[1])], float(v)] for k, v in st['monthly_agg_returns']],
                        yearly=[[[int(k)], float(v)] for k, v in st['yearly_agg_returns']])
+    if bdf is not None:
+        sb = js.statistics.get('benchmark')
+        res['json_bench'] = None if sb is None else dict(
+            max_drawdown=float(sb['max_drawdown']), max_drawdown_duration=int(sb['max_drawdown_duration']), cagr=float(sb['cagr']),
+            sharpe=float(sb['sharpe']), sortino=float(sb['sortino']), mean_returns=float(sb['mean_returns']),
+            stdev_returns=float(sb['stdev_returns']), cum_returns=[float(v) for k, v in sb['cum_returns']])
     try:
         import contextlib
         import io
@@ -114,7 +131,12 @@ def execute(case):
             pass
     try:
         from qstrader.statistics.tearsheet import TearsheetStatistics
-        tr = TearsheetStatistics(strategy_equity=df.copy(), periods=case['periods']).get_results(df.copy())
+        ts_ = TearsheetStatistics(strategy_equity=df.copy(), benchmark_equity=None if bdf is None else bdf.copy(), periods=case['periods'])
+        tr = ts_.get_results(df.copy())
+        if bdf is not None:
+            tb = ts_.get_results(bdf.copy())
+            res['tear_bench'] = dict(sharpe=float(tb['sharpe']), max_drawdown=float(tb['max_drawdown']),
+                                     max_drawdown_duration=int(tb['max_drawdown_duration']))
         res['tear'] = dict(sharpe=float(tr['sharpe']), max_drawdown=float(tr['max_drawdown']),
                            max_drawdown_duration=int(tr['max_drawdown_duration']), returns=series(tr['returns']),
                            cum_returns=series(tr['cum_returns']), drawdowns=series(tr['drawdowns']))
@@ -277,6 +299,25 @@ def oracle_c17(case, real):
         jf = real['json_file']
         if not close(jf['sharpe'], js['sharpe']) and not (math.isnan(js['sharpe']) or math.isinf(js['sharpe'])):
             out.append(dict(what='statistics file round trip changes Sharpe', key='json-file'))
+    if real.get('bench') is not None:
+        jb = real.get('json_bench')
+        if jb is None:
+            out.append(dict(what='JSON statistics have no benchmark entry although a benchmark curve was supplied', key='reports-benchmark'))
+        else:
+            for key in ('sharpe', 'sortino', 'cagr', 'max_drawdown'):
+                if not close(jb[key], real['bench'][key]):
+                    out.append(dict(what='JSON benchmark %s %r differs from performance.%s of the benchmark curve %r' % (
+                        key, jb[key], key, real['bench'][key]), key='reports-benchmark'))
+            if jb['max_drawdown_duration'] != real['bench']['max_drawdown_duration']:
+                out.append(dict(what='JSON benchmark drawdown duration differs', key='reports-benchmark'))
+            if len(jb['cum_returns']) != len(real['bench']['cum_returns']) or any(
+                    not close(a, b) for a, b in zip(jb['cum_returns'], real['bench']['cum_returns'])):
+                out.append(dict(what='JSON benchmark cumulative returns differ', key='reports-benchmark'))
+            tbn = real.get('tear_bench')
+            if tbn is not None:
+                for key in ('sharpe', 'max_drawdown'):
+                    if not close(tbn[key], jb[key]):
+                        out.append(dict(what='tearsheet benchmark %s %r differs from JSON %r' % (key, tbn[key], jb[key]), key='reports-benchmark'))
     tr = real.get('tear', {})
     if 'error' not in tr:
         for key in ('sharpe', 'max_drawdown'):
